@@ -253,11 +253,16 @@ package join
 
 // The ghost state of a discipline that does not exist yet is empty. JoinSize is a size
 // the runtime can allocate (otherwise make panics in New).
+// C16: Stop() returns when the goroutine calls Complete(); a discipline that was handed out has that goroutine.
+//@ ghost var gMainStarted bool [C16]
+//@ event go join.(*Discipline).main
+//@   effect gMainStarted := true
 //@ func New
-//@   requires [*] ghost-initial-state: !gTick && gJS == opts.JoinSize && gTO == opts.Timeout && ((opts.Released != nil) <==> gNC) && gInN == 0 && gOutN == 0 && gDelivPos == 0 && !gClosed && !gStop && !gOutClosed && gLent == 0 && gLastDeliv == gClock && (forall r :: !in(gOwned, r))
+//@   requires [*] ghost-initial-state: !gMainStarted && !gTick && gJS == opts.JoinSize && gTO == opts.Timeout && ((opts.Released != nil) <==> gNC) && gInN == 0 && gOutN == 0 && gDelivPos == 0 && !gClosed && !gStop && !gOutClosed && gLent == 0 && gLastDeliv == gClock && (forall r :: !in(gOwned, r))
 //@   requires [*] allocatable: opts.JoinSize < two63
-//@   modifies gClock
+//@   modifies gMainStarted, gClock
 //@   ensures [*] result1 == nil ==> result0 != nil
+//@   ensures [C16] the-goroutine-that-answers-stop-is-running: result1 == nil ==> gMainStarted
 
 // C16, rule SB: every blocking operation of the goroutine is a select with both stop cases.
 //@ stoprule (*Discipline).main
